@@ -77,7 +77,10 @@ def main():
                                      'user_defined': raw.user_defined,
                                      'validator': describe_validator(raw.validator, bv)
                                      if raw.validator is not None else None,
-                                     'has_default': raw.default is not bb.NO_DEFAULT}
+                                     'has_default': raw.default is not bb.NO_DEFAULT,
+                                     'default': (['union', type(raw.default).__name__, raw.default._tag]
+                                                 if isinstance(raw.default, bb.Union) else
+                                                 [type(raw.default).__name__])}
                     elif isinstance(raw, classmethod):
                         attrs[an] = {'kind': 'classmethod'}
                     elif inspect.isfunction(raw):
